@@ -136,7 +136,13 @@ fn main() {
                 let seed = chooser::derive_seed(base_seed(), prop.id, si);
                 sim::set_case(case);
                 let make = v.make;
-                let r = sim::run(seed, sim::Source::Seed, false, sim::Limits { max_steps: v.max_steps, ..Default::default() }, move || make());
+                let trace_at: Option<u64> = std::env::var("VERIF_TRACE_AT").ok().and_then(|s| s.parse().ok());
+                let r = sim::run(seed, sim::Source::Seed, trace_at == Some(idx), sim::Limits { max_steps: v.max_steps, ..Default::default() }, move || make());
+                if trace_at == Some(idx) {
+                    for l in &r.tail {
+                        eprintln!("{}", l);
+                    }
+                }
                 println!(
                     "{} {:016x} {:016x} {} {} {}",
                     idx,
